@@ -19,4 +19,6 @@ open BsVerif.Lines
 #print axioms C04_fn_to_addr_partial
 #print axioms C04_fn_to_addr_counterexample
 #print axioms C04_fn_to_addr_counterexample_same_address
+#print axioms closestPass_isStmtRow
+#print axioms C04_line_to_addrs_sound
 #print axioms C04_line_to_addrs_counterexample
